@@ -369,3 +369,28 @@ def lln(rows):
 def model_term(m, guess, events, obs, clear=True):
     return "lln_eqb (sobs (srun %s %s %s %s (sinit) %s)) %s" % (
         T.boolean(clear), T.bytes_(m.plaintext), T.N(m.segsize), T.N(guess), T.lst(events), lln(obs))
+
+
+def make_dyhb_fail_synchronously(g, servers):
+    """Lost connection: foolscap's callRemote on a dead reference returns an ALREADY FAILED Deferred
+    (DeadReferenceError) instead of going over the wire.  The client-side references of the given grid servers
+    answer get_buckets that way (not through the scheduler); other methods are untouched.  Returns an undo function."""
+    from twisted.internet import defer
+    from foolscap.api import DeadReferenceError
+    undo = []
+    for sv in servers:
+        for per in g._client_servers[sv].values():
+            w = per.rref
+            orig = w.callRemote
+
+            def callRemote(methname, *a, _orig=orig, **kw):
+                if methname == "get_buckets":
+                    return defer.fail(DeadReferenceError("harness: connection lost"))
+                return _orig(methname, *a, **kw)
+            w.callRemote = callRemote
+            undo.append(w)
+
+    def restore():
+        for w in undo:
+            w.__dict__.pop("callRemote", None)
+    return restore
